@@ -299,7 +299,9 @@ def checkLabels (labels : List (List α)) (depth : Nat) : Except Err Unit :=
   else if depth > 1 && !treeForm labels depth then .error .indexInit
   else .ok ()
 
-/-- `Frame.set_index(column, drop=…)` (one column) -/
+/-- `Frame.set_index(column, drop=…)` (one column).  With `drop` the data is rebuilt from the
+    remaining blocks with `shape_reference=(rows, 0)` (commit 0a55f7a): when the column was the
+    only one, the frame keeps its rows, each without cells (here: `rest r [j] = []` per row). -/
 def setIndex (f : Fr γ α) (c : γ) (drop : Bool) : Except Err (Fr γ α) := do
   let j ← locToIloc f.columns c
   let labels := f.rows.map (sel · [j])
@@ -308,7 +310,8 @@ def setIndex (f : Fr γ α) (c : γ) (drop : Bool) : Except Err (Fr γ α) := do
          columns := if drop then rest f.columns [j] else f.columns,
          rows := if drop then f.rows.map (rest · [j]) else f.rows }
 
-/-- `Frame.set_index_hierarchy(columns, drop=…)` (`reorder_for_hierarchy=False`) -/
+/-- `Frame.set_index_hierarchy(columns, drop=…)` (`reorder_for_hierarchy=False`); `drop` keeps the
+    row count when every column is consumed (`shape_reference`, commit 0a55f7a). -/
 def setIndexHierarchy (f : Fr γ α) (cs : List γ) (drop : Bool) : Except Err (Fr γ α) := do
   let js ← cs.mapM (locToIloc f.columns)
   if js.length < 2 then .error .indexInit   -- an IndexHierarchy needs depth > 1
